@@ -7,6 +7,7 @@ import (
 	"go/token"
 	"math/rand"
 	"sort"
+	"strconv"
 	"strings"
 
 	"golang.org/x/tools/go/ssa"
@@ -808,7 +809,12 @@ func gString(e *gexpr) string {
 	case "name":
 		return e.S
 	case "char":
-		return "'" + e.S + "'"
+		return strconv.QuoteToASCII(e.S)
+	case "range":
+		r := []rune(e.S)
+		return "[" + strconv.QuoteToASCII(string(r[0])) + "-" + strconv.QuoteToASCII(string(r[1])) + "]"
+	case "state":
+		return "!{}"
 	case "dot":
 		return "."
 	case "nil":
